@@ -28,16 +28,23 @@ RULE = (
     "every run to contain such divisions (tags q:params, q:multivariate, q:divisor-multiterm, q:long-division, "
     "q:merged-on-flipped, computed from the true terms and dictionaries, not from the implementation). Forms: the rule, its reverse w.r.t. every child "
     "(Complement / Quotient incl. sympy.div with parameters), the equivalence rule, the equivalence rule of the "
-    "reverse, EquivalencePathRule chains (forward steps then reverse steps). rule.get_terms(n), n <= N <= 8, "
+    "reverse, EquivalencePathRule chains (forward steps then reverse steps). ONE-FACTOR PRODUCTS (fix 25e10f1) in "
+    "every form that accepts them: the product rule itself (words: the prefix split with no cut = the class with "
+    "relabelled statistics; syn: a prod node with one child), its reverse (form 3, Quotient without sibling), its "
+    "equivalence rule (form 7), the refused equivalence rule of its reverse (form 8: NotImplementedError is the "
+    "expected outcome) and path steps that are RAW one-factor product rules / their ReverseRules (step kinds 2/3, "
+    "what SpecificationRuleExtractor._find_rule hands out), mixed with union steps. rule.get_terms(n), n <= N <= 8, "
     "all parameter tuples, with the sub-term providers bound to the children's TRUE terms; compared with the "
-    "model and (oracle) with the brute-force terms of the rule's own class. An 'edge' stream (15%) holds "
-    "configurations the code does not support: for the Complement forms (reverse / equivalence-of-reverse of a "
-    "union w.r.t. a child with merged or untracked statistics) the oracle judges them like every other case and "
-    "the two recorded behaviours are reported as KNOWN-FINDING (finding_match; two corpus cases make them appear "
-    "on every run); for Quotient and path edge cases (untracked statistic on the flipped child: Quotient.param_map "
-    "asserts) only model = implementation is compared; Quotient with several parent statistics merged onto one "
-    "statistic of the flipped child is NOT an edge case (C09_quotient_parent_map_round_trip) and is judged by the "
-    "oracle. "
+    "model and (oracle) with the brute-force terms of the rule's own class. An 'edge' stream (about 6.5% of the "
+    "cases) holds configurations the code does not support (reverse w.r.t. a child with merged or untracked "
+    "statistics, in forms 2, 3, 5 and in the reverse steps of paths): the oracle judges them against brute force "
+    "like every other case; the recorded behaviours are reported as KNOWN-FINDING (finding_match: the silent 0 of "
+    "Complement in forms 2/5 and of the composed dictionary in form 6, the AssertionError of Quotient.param_map "
+    "in form 3, the AssertionError of DisjointUnion.param_map on a conflicting merge in form 2; corpus cases make "
+    "them appear on every run), every other failure is a violation; a path with a reverse step over a "
+    "non-injective dictionary must refuse with NotImplementedError before the first term. Quotient with several "
+    "parent statistics merged onto one statistic of the flipped child is NOT an edge case "
+    "(C09_quotient_parent_map_round_trip) and is judged by the oracle. "
     "Non-trivial: >= 1 extra parameter somewhere, >= 3 levels computed and a level with >= 2 distinct keys or a "
     "count >= 2."
 )
@@ -75,15 +82,29 @@ LEVEL_TEXT = (
     "merged statistics share a child statistic) and never assert; the parent map of Complement is that of the "
     "inverted dictionary exactly when the dictionary is injective. C09_equivalence(_child_index,_reverse), "
     "C09_path(_reverse_link,_dictionary): the constructors rebuilt by EquivalenceRule and EquivalencePathRule "
-    "(first non-empty child, composed / inverted dictionaries) are genuine when the original rules are."
+    "(first non-empty child, composed / inverted dictionaries) are genuine when the original rules are. "
+    "FIX 25e10f1 (Count/ConstructorsOneFactor.v): C09_one_factor_product_is_union (a one-factor product is genuine "
+    "iff the one-child union over the same dictionary is), C09_equivalence_one_factor_product (form 7 returns the "
+    "parent's true table; it IS the form-4 step; two or more factors: NotImplementedError), C09_quotient_no_sibling "
+    "(form 3 with ONE kid and >= 1 parent statistic: every level is the factor's true table, nothing of the rule's own "
+    "terms is read), C09_path_step_one_factor_product (+ _lowering, _link, C09_path_single_product_step: typed path "
+    "steps, a raw product step contributes the dictionary of its only factor and is a genuine link). "
+    "OPEN FINDINGS characterised (Count/ConstructorsFindings.v): C09_complement_untracked_characterised (without "
+    "coverage the Complement step raises nothing and returns the true table pushed through child -> parent -> child; "
+    "C09_complement_round_trip_coordinate: untracked coordinates become 0), C09_complement_untracked_refuted (so "
+    "C09_complement_step without coverage is false; witness = corpus case), C09_complement_merged_asserts / "
+    "C09_union_param_map_asserts_iff (the assertion is reached exactly on tuples whose merged statistics differ)."
 )
 LEVEL_NOTE = (
     "Modelled, not verified: the transcription itself (Count/Constructors.v), tied by the correspondence on real "
     "rule objects. TRUSTED, not proved: that sympy.div returns the exact quotient (the theorems are about the "
     "model's exact division, which is compared with what the implementation returns through sympy on every "
-    "reverse product rule with parameters, incl. multi-step multivariate divisions). Not covered: a flipped child "
-    "with a statistic no parent statistic maps to (Quotient.param_map asserts: part of the open finding "
-    "complement-untracked-child-statistic); negative parameter values; fixed_values of the path constructor (not "
+    "reverse product rule with parameters, incl. multi-step multivariate divisions). Not covered by a correctness theorem: a flipped child "
+    "with a statistic no parent statistic maps to (open finding complement-untracked-child-statistic: characterised "
+    "for Complement, C09_complement_untracked_*; for Quotient.param_map's AssertionError and for the composed "
+    "dictionary of a path the behaviour is tied by correspondence and masked narrowly by finding_match); the "
+    "one-kid Quotient whose parent has NO statistic (C09_quotient_no_sibling needs >= 1; correspondence + oracle only); "
+    "negative parameter values; fixed_values of the path constructor (not "
     "used by get_terms); the end-to-end theorem of the path form takes the chain of true tables as given "
     "(chain_ok), the per-link facts being C09_equivalence / C09_path_reverse_link."
 )
@@ -107,7 +128,8 @@ ASSUMPTIONS = [
     "complement/quotient: every parameter of the flipped child is the image of exactly one parent parameter "
     "(injective dictionary covering the child's parameters) — the round-trip hypothesis of C09_complement; "
     "otherwise the code asserts or (untracked child statistic) silently reports that statistic as 0",
-    "quotient: at least two children, every sibling has an object of its minimum size (else the code divides by zero); "
+    "quotient with >= 2 children (C09_quotient_step): every sibling has an object of its minimum size (else the code "
+    "divides by zero); with ONE child (C09_quotient_no_sibling, fix 25e10f1) there is no sibling and no such hypothesis; "
     "with parameters: parameter values are non-negative (they are exponents of sympy polynomials); every statistic of "
     "the flipped child is the image of at least one parent statistic (several may be merged onto it)",
     "quotient: the original product rule is genuine at the sizes 0 .. N + _parent_shift that levels 0..N read",
@@ -174,6 +196,19 @@ def _kids_desc(base, nm):
     return out
 
 
+def _step_kind(r):
+    """(kind, original rule, idx) of a rule of an EquivalencePathRule: kind 0 EquivalenceRule of a union,
+    1 EquivalenceRule of the reverse of a union, 2 RAW one-factor product rule, 3 its RAW ReverseRule (25e10f1)"""
+    from comb_spec_searcher.strategies.rule import EquivalenceRule, ReverseRule
+
+    if isinstance(r, EquivalenceRule):
+        orig = r.original_rule
+        rev = isinstance(orig, ReverseRule)
+        return int(rev), (orig.original_rule if rev else orig), (orig.idx if rev else 0)
+    rev = isinstance(r, ReverseRule)
+    return 2 + int(rev), (r.original_rule if rev else r), (r.idx if rev else 0)
+
+
 def encode(case):
     nm = _Names()
     N_ = case["N"]
@@ -181,11 +216,8 @@ def encode(case):
         rules, rule = _build(case)
         steps = []
         for r in rules:
-            orig = r.original_rule
-            rev = hasattr(orig, "original_rule")
-            base = orig.original_rule if rev else orig
-            steps.append([int(rev), [nm(x) for x in base.comb_class.extra_parameters], _kids_desc(base, nm),
-                          orig.idx if rev else 0])
+            kind, base, idx = _step_kind(r)
+            steps.append([kind, [nm(x) for x in base.comb_class.extra_parameters], _kids_desc(base, nm), idx])
         return [6, 0, N_, steps, _tables(rule.children[0], N_)]
     base, _ = _build(case)
     form, idx = case["form"], case["idx"]
@@ -231,11 +263,66 @@ def impl(case):
             "merged": len(set(vals)) < len(vals),
             "conflict_levels": _merge_conflict_levels(rule.children[0], d, case["N"]),
         }
+    if case["form"] == 3:
+        # the Quotient constructor of the real rule: statistics of the flipped child no parent statistic maps to
+        cons = rule.constructor
+        vals = list(cons.extra_parameters[cons.idx].values())
+        res["flipped"] = {
+            "untracked": [i for i, x in enumerate(rule.comb_class.extra_parameters) if x not in vals],
+            "merged": False, "conflict_levels": [],
+        }
+    if case["form"] == 6:
+        # read off the CASE (not the implementation): the statistics of the path's first class that a REVERSE
+        # step loses (the class the step starts from carries a statistic no statistic of the union's parent maps to)
+        res["flipped"] = {"untracked": _path_lost(case)[0], "merged": False, "conflict_levels": []}
     res["truth"] = [_canon(_U().true_terms(rule.comb_class, n)) for n in range(case["N"] + 1)]
     if case["form"] == 3:
         res["qshape"] = _quot_shape(case, res["truth"])
     res["nparams"] = len(rule.comb_class.extra_parameters) + sum(len(c.extra_parameters) for c in rule.children)
     return res
+
+
+def _path_lost(case):
+    """
+    Follow every statistic of the first class of a path through the steps' dictionaries, by the MEANING of the
+    dictionaries (independent of EquivalencePathRule.constructor): a forward step parent -> child renames a
+    statistic through the child's dictionary (absent = the statistic is identically 0 on the class: nothing is
+    lost); a reverse step child -> parent needs a parent statistic mapped onto it: if there is none the statistic
+    is LOST (no rule can recover it from the parent's terms), if there are several the library declines
+    (NotImplementedError).  -> (positions of the first class's statistics that are lost, some reverse step
+    has a non-injective dictionary, some reverse step has an untracked child statistic)
+    """
+    steps = case["steps"]
+
+    def step_io(st):
+        kind, names, kids = st["node"]
+        kid, d = kids[st["idx"] if kind == "sum" else 0]
+        return list(names), list(kid[1]), [list(e) for e in d]
+
+    pn, kn, _ = step_io(steps[0])
+    first = kn if steps[0]["rev"] else pn
+    cur = {i: x for i, x in enumerate(first)}   # position in the first class -> current name (None: identically 0)
+    lost, noninj, untracked = set(), False, False
+    for st in steps:
+        pn, kn, d = step_io(st)
+        if st["rev"]:
+            vals = [b for _, b in d]
+            noninj = noninj or len(set(vals)) < len(vals)
+            untracked = untracked or any(x not in vals for x in kn)
+            for i, x in list(cur.items()):
+                if x is None or i in lost:
+                    continue
+                srcs = [a for a, b in d if b == x]
+                if not srcs:
+                    lost.add(i)
+                else:
+                    cur[i] = srcs[0]
+        else:
+            dd = dict((a, b) for a, b in d)
+            for i, x in list(cur.items()):
+                if x is not None and i not in lost:
+                    cur[i] = dd.get(x)
+    return sorted(lost), noninj, untracked
 
 
 def _quot_shape(case, truth):
@@ -294,6 +381,7 @@ def _merge_conflict_levels(parent, d, N):
 # ------------------------------------------------------------------ oracle
 TAG_UNTRACKED = "[complement: statistic(s) of the flipped child that no parent statistic maps to are reported as 0]"
 TAG_MERGED = "[complement: AssertionError in DisjointUnion.param_map, several parent statistics are mapped onto one statistic of the flipped child]"
+TAG_QUOT_UNTRACKED = "[quotient: AssertionError in Quotient.param_map, a statistic of the flipped child that no parent statistic maps to]"
 
 
 def _zeroed(level, positions):
@@ -308,17 +396,28 @@ def _zeroed(level, positions):
 def oracle(case, res):
     """
     The PROPERTY: rule.get_terms(n) equals the brute-force terms of the rule's own class for
-    every n <= N and raises nothing.  Judged on every case except the 'edge' cases of the
-    Quotient and path forms (3, 6).  For the Complement forms (2, 5) a failure is additionally
-    DESCRIBED (tag at the end of the message) when it is exactly one of the two recorded
-    behaviours; finding_match keys on the tag plus the shape of the case.
+    every n <= N and raises nothing.  Judged on EVERY case, the 'edge' cases of all forms
+    included.  A failure is additionally DESCRIBED (tag at the end of the message) when it is
+    exactly one of the recorded behaviours (Complement forms 2/5, the Quotient form 3 and a path
+    with a reverse step, form 6); finding_match keys on the tag plus the shape of the case.
+    Two refusals are not failures ("where the library builds one"): form 8, and a path with a
+    reverse step over a non-injective dictionary (NotImplementedError before the first term).
     """
     if "exception" in res:
         return "implementation crashed: " + res["exception"]
-    if case.get("edge") and case["form"] not in (2, 5):
-        return None
     levels, err = res["out"]
     truth = res["truth"]
+    if case["form"] == 8:
+        # "the reverse of that where the library builds one": for the reverse of a product the library builds no
+        # equivalence form (EquivalenceRule.constructor has no Quotient branch, also after 25e10f1); anything
+        # else than that refusal before the first term is judged a failure
+        if levels == [] and err == ERR["NotImplementedError"]:
+            return None
+        return "equivalence rule of the reverse of a product: expected NotImplementedError at level 0, got %r" % (res["out"],)
+    if case["form"] == 6 and levels == [] and err == ERR["NotImplementedError"] and _path_lost(case)[1]:
+        # a reverse step whose dictionary maps several parent statistics onto one child statistic: the library
+        # declines to build the path constructor (NotImplementedError in EquivalencePathRule.constructor)
+        return None
     fl = res.get("flipped") or {"untracked": [], "merged": False}
     zeroed = [_zeroed(t, fl["untracked"]) for t in truth]
     bad = next((n for n, lv in enumerate(levels) if lv != truth[n]), None)
@@ -332,6 +431,9 @@ def oracle(case, res):
                 and res.get("raised_in") == ["disjoint.py:get_terms", "disjoint.py:param_map"]
                 and conflicts and conflicts[0] == len(levels)):
             why += " " + TAG_MERGED
+        if (case["form"] == 3 and err == ERR["AssertionError"] and fl["untracked"] and bad is None
+                and res.get("raised_in") == ["cartesian.py:get_terms", "cartesian.py:param_map"]):
+            why += " " + TAG_QUOT_UNTRACKED
         return why
     if bad is not None:
         why = "size %d: rule.get_terms gives %r but the class has %r" % (bad, levels[bad][:6], truth[bad][:6])
@@ -344,12 +446,13 @@ def oracle(case, res):
 def _flipped_shape(case):
     """(names of the flipped child's statistics, its dictionary) read off the case itself"""
     spec, idx = case["spec"], case["idx"]
+    want = "prod" if case["form"] == 3 else "sum"
     if spec["u"] == "syn":
-        if spec["node"][0] != "sum":
+        if spec["node"][0] != want:
             return None
         kid, d = spec["node"][2][idx]
         return list(kid[1]), [list(e) for e in d]
-    if spec.get("strategy") != "expansion":
+    if spec.get("strategy") != ("split" if case["form"] == 3 else "expansion"):
         return None
     pl = spec["plans"][idx]
     return [st[0] for st in pl["stats"]], [list(e) for e in pl["dict"]]
@@ -365,7 +468,15 @@ def finding_match(case, why):
         DisjointUnion.param_map called from Complement.get_terms.
     Anything else (other wrong counts, other exceptions, other forms) matches nothing.
     """
-    if not isinstance(why, str) or case.get("form") not in (2, 5):
+    if not isinstance(why, str) or case.get("form") not in (2, 3, 5, 6):
+        return None
+    if case["form"] == 6:
+        # the path form of the same defect: a REVERSE step starting from a class that carries a statistic no
+        # statistic of the union's parent maps to; nothing raised; every level = the truth with exactly the
+        # statistics lost along the reverse steps set to 0 (the oracle only tags that shape)
+        lost, _, untracked_step = _path_lost(case)
+        if why.endswith(TAG_UNTRACKED) and lost and untracked_step and "raised" not in why:
+            return "complement-untracked-child-statistic"
         return None
     shape = _flipped_shape(case)
     if shape is None:
@@ -374,6 +485,11 @@ def finding_match(case, why):
     vals = [b for _, b in d]
     untracked = [x for x in names if x not in vals]
     merged = len(set(vals)) < len(vals)
+    if case["form"] == 3:
+        # Quotient: AssertionError of Quotient.param_map on the first non-empty level of the flipped child
+        if why.endswith(TAG_QUOT_UNTRACKED) and untracked and "raised AssertionError" in why:
+            return "complement-untracked-child-statistic"
+        return None
     if why.endswith(TAG_UNTRACKED) and untracked and "raised" not in why:
         return "complement-untracked-child-statistic"
     if why.endswith(TAG_MERGED) and merged and case["form"] == 2 and "raised AssertionError" in why:
@@ -397,6 +513,8 @@ def key(case):
 
 def classify(case, res):
     tags = ["form%d" % case["form"], "u:" + (case["spec"]["u"] if case["form"] != 6 else "syn")]
+    if "one-factor" in case.get("tags", []):
+        tags.append("one-factor:form%d" % case["form"])
     if case.get("edge"):
         tags.append("edge")
     for t in case.get("tags", []):
@@ -527,6 +645,9 @@ def _gen_words_product(rng):
     if safe < 1:
         return None
     cuts = sorted(rng.randint(0, safe) for _ in range(rng.choice([1, 1, 2])))
+    one_factor = rng.random() < 0.2
+    if one_factor:
+        cuts = []  # no cut: the ONE-factor product "the class itself, its statistics relabelled" (25e10f1)
     shapes = U.split_children(base, cuts)
     kids = [U.StatWords(p, pats, list(alph), jp) for p, jp in shapes]
     if any(k.is_empty() for k in kids):
@@ -568,9 +689,11 @@ def _gen_words_product(rng):
             plans[i]["dict"].append([pv, cv])
             if o == 0:
                 shared[(i, kind, arg)] = cv
-    form = rng.choice([1, 3, 3])
+    form = rng.choice([1, 3, 3, 7, 7]) if one_factor else rng.choice([1, 3, 3])
     idx = rng.randrange(len(shapes)) if form == 3 else 0
     edge = False
+    if one_factor:
+        tags.add("one-factor")
     if form == 3:
         d = plans[idx]["dict"]
         if len({b for _, b in d}) != len(d):
@@ -641,13 +764,22 @@ def _is_empty_leaf(leaf):
 
 
 def _gen_syn(rng):
-    form = rng.choice([0, 1, 1, 2, 2, 3, 3, 3, 4, 5])
+    form = rng.choice([0, 1, 1, 2, 2, 3, 3, 3, 4, 5, 7])
+    if form == 7 and rng.random() < 0.15:
+        form = 8
     k = rng.choice([1, 2, 2, 3]) if form in (0, 2, 4, 5) else rng.choice([2, 2, 3])
-    if form == 1 and rng.random() < 0.15:
-        k = 1
+    if form in (1, 3) and rng.random() < 0.15:
+        k = 1  # a product with ONE factor; its reverse is a Quotient without sibling (25e10f1)
+    if form in (7, 8):
+        k = 1  # the equivalence forms of a product exist for one factor only
     tags = set()
+    if k == 1 and form in (1, 3, 7, 8):
+        tags.add("one-factor")
     edge = form in (2, 3, 5) and rng.random() < 0.15
-    if form in (4, 5):
+    if form in (7, 8):
+        leaves = [_rand_leaf(rng, "s0_", "any")]
+        idx = 0
+    elif form in (4, 5):
         live = rng.randrange(k)
         leaves = [_rand_leaf(rng, "s%d_" % i, "any" if i == live else "empty") for i in range(k)]
         idx = live
@@ -753,6 +885,7 @@ def _gen_path(rng):
         down = 1
     edge = rng.random() < 0.1
     counter = [0]
+    prods = [0]
 
     def wrap(node, bij):
         counter[0] += 1
@@ -764,6 +897,10 @@ def _gen_path(rng):
         d = _rand_dict(rng, pnames, knames, bijective=bij, injective=False)
         kids = [[node, d]]
         pos = 0
+        if rng.random() < 0.3:
+            # a RAW one-factor product rule (reverse step: its ReverseRule, a Quotient without sibling): 25e10f1
+            prods[0] += 1
+            return ["prod", pnames, kids], 0
         for _ in range(rng.randint(0, 2)):
             e = _rand_leaf(rng, "e%d_" % counter[0], "empty")
             ed = _rand_dict(rng, pnames, e[1], injective=bij)
@@ -783,8 +920,12 @@ def _gen_path(rng):
     for _ in range(up):
         node, pos = wrap(node, not edge)
         steps_up.append({"node": node, "rev": 1, "idx": pos})
-    case = {"form": 6, "idx": 0, "N": rng.randint(3, 8), "steps": steps_down + steps_up,
-            "tags": ["path:down%d-up%d" % (down, up)]}
+    tags = ["path:down%d-up%d" % (down, up)]
+    if any(st["node"][0] == "prod" for st in steps_down):
+        tags.append("one-factor:path-fwd")
+    if any(st["node"][0] == "prod" for st in steps_up):
+        tags.append("one-factor:path-rev")
+    case = {"form": 6, "idx": 0, "N": rng.randint(3, 8), "steps": steps_down + steps_up, "tags": tags}
     if edge and up:
         case["edge"] = 1
     return case
@@ -838,7 +979,7 @@ def shrink(case):
         kind, names, kids = spec["node"]
         for name in names:
             yield dict(case, spec=dict(spec, node=_drop_parent_name(spec["node"], name)))
-        if len(kids) > (2 if form == 3 else 1):
+        if len(kids) > 1 and form not in (7, 8):
             for i in range(len(kids)):
                 if form in (2, 3, 5) and i == idx:
                     continue
@@ -897,7 +1038,10 @@ def extra_checks(ctx):
     for c, (res, _, _) in zip(ctx.cases, ctx.impl_res):
         for t in classify(c, res):
             tags[t] = tags.get(t, 0) + 1
-    need = ["form%d" % f for f in range(7)] + ["u:words", "u:syn", "merge", "merge-flipped", "drop", "extra", "edge",
+    need = ["form%d" % f for f in range(9)] + ["u:words", "u:syn", "merge", "merge-flipped", "drop", "extra", "edge",
+                                               # fix 25e10f1: one-factor products in every form that accepts them
+                                               "one-factor:form1", "one-factor:form3", "one-factor:form7",
+                                               "one-factor:path-fwd", "one-factor:path-rev",
                                                "q:params", "q:multivariate", "q:divisor-multiterm", "q:long-division",
                                                "q:merged-on-flipped"]
     missing = [t for t in need if not tags.get(t)] if len(ctx.cases) >= 400 else []
